@@ -15,9 +15,11 @@ import (
 	"path/filepath"
 	"runtime"
 	"strings"
+	"sync"
 	"sync/atomic"
 
 	"verif/internal/ev"
+	"verif/internal/lite"
 	"verif/internal/mc"
 	"verif/internal/vpager"
 
@@ -76,6 +78,10 @@ func c06Ops() []c06Op {
 		{"PKSelect", 1, false, func(e *Env, onRow func() bool) error {
 			return e.H.PKSelect("w", sqlittle.Key{"y"}, func(r sqlittle.Row) { onRow() }, "pad")
 		}},
+		{"PKSelect(t)", 1, false, func(e *Env, onRow func() bool) error {
+			// the primary key is the rowid: another code path than a key in an index
+			return e.H.PKSelect("t", sqlittle.Key{int64(2)}, func(r sqlittle.Row) { onRow() }, "pad")
+		}},
 		{"Columns", 0, false, func(e *Env, onRow func() bool) error {
 			_, err := e.H.Columns("t")
 			return err
@@ -128,6 +134,7 @@ type c06Scenario struct {
 	h2Select bool
 	grown    bool // the file grows (a committed bulk insert by another process) after the handle was opened, before the call
 	repeat   bool // the same handle makes the call a second time after the first returned (whatever its outcome)
+	hot      bool // between Open and the call a writer dies in mid-transaction: spilled pages in the file, a valid journal next to it
 	readOnly bool // the file has no write permission bit when it is opened (other processes may still write: root, an earlier open, a later chmod)
 	nestAt   int  // the callback of this row makes select-like calls on the same handle itself (refused today: "trying to lock a locked lock")
 }
@@ -145,6 +152,9 @@ func (s *c06Scenario) String() string {
 	}
 	if s.others != "" {
 		x += " with " + s.others
+	}
+	if s.hot {
+		x += " with a hot journal left by a dead writer"
 	}
 	if s.readOnly {
 		x += " on a file without write permission bits"
@@ -206,6 +216,11 @@ func c06Run(r *ev.Run, c *mc.Ctx, wk *c06Worker, sc *c06Scenario, img []byte) c0
 		defer wk.W.Do("close")
 	} else if strings.Contains(sc.others, "W") {
 		wk.W.MustOK("open " + path)
+		if strings.Contains(sc.others, "WO") {
+			// a writer that never syncs writes its journal header complete at once: the reader finds a journal
+			// that looks valid and asks the kernel who holds RESERVED (an extra lock query inside the call)
+			wk.W.MustOK("exec PRAGMA synchronous=OFF")
+		}
 		wSteps = []step{
 			{"W", "BEGIN IMMEDIATE", func() string { s, _ := wk.W.Do("exec BEGIN IMMEDIATE"); return s }},
 			{"W", "INSERT", func() string { s, _ := wk.W.Do("exec INSERT INTO t VALUES (99, 'w', 'p')"); return s }},
@@ -306,6 +321,15 @@ func c06Run(r *ev.Run, c *mc.Ctx, wk *c06Worker, sc *c06Scenario, img []byte) c0
 	}
 	env := &Env{H: sqlittle.VerifWrap(d), D: d}
 	defer real.Close()
+	if sc.hot {
+		db, j := c06HotPair(img)
+		if j == nil {
+			r.Harness("C06: no hot journal pair")
+			return res
+		}
+		os.WriteFile(path, db, 0o644) // same inode: the open handle sees the new content
+		os.WriteFile(path+"-journal", j, 0o644)
+	}
 	if sc.grown {
 		// another process commits a transaction that makes the file (and table t) much larger than at Open
 		wk.H3.MustOK("open " + path)
@@ -444,6 +468,13 @@ func c06Run(r *ev.Run, c *mc.Ctx, wk *c06Worker, sc *c06Scenario, img []byte) c0
 				} else {
 					violation("C06:lock-not-held:"+opKind(sc.op.name), fmt.Sprintf("inside the call (after %s) the process does not hold READ on the shared range (process locks: %s)", after, me.Description))
 				}
+			}
+		}
+		if h1.finished && sc.hot {
+			if h1.err == nil {
+				violation("C06:hot-journal-read:"+opKind(sc.op.name), "the call succeeds although a dead writer's journal lies next to the file")
+			} else {
+				r.Outcome("hot journal: the call is refused")
 			}
 		}
 		if h1.finished && !h2Locked {
@@ -632,7 +663,7 @@ func runC06(r *ev.Run) {
 	if r.Thorough() {
 		pairBound = 3
 	}
-	pairOps := []string{"SelectDone", "IndexedSelect(w)", "Select", "IndexedSelectEq", "PKSelect"}
+	pairOps := []string{"SelectDone", "IndexedSelect(w)", "Select", "IndexedSelectEq", "PKSelect", "PKSelect(t)"}
 	tripleOp := "SelectRowid"
 	if r.Thorough() {
 		tripleOp = "SelectDone"
@@ -649,12 +680,16 @@ func runC06(r *ev.Run) {
 				}
 			}
 			scen = append(scen, c06Scenario{op: op, others: "H2", h2Select: true})
+			scen = append(scen, c06Scenario{op: op, others: "WO"})
 		}
 		if op.name == "Select" || op.name == "IndexedSelect" || op.name == "SelectRowid" {
 			scen = append(scen, c06Scenario{op: op, grown: true})
 		}
 		if op.name == "SelectRowid" {
 			scen = append(scen, c06Scenario{op: op, others: "W", grown: true})
+		}
+		if op.name == "Select" || op.name == "PKSelect" || op.name == "Columns" || op.name == "IndexedSelectEq" {
+			scen = append(scen, c06Scenario{op: op, hot: true}, c06Scenario{op: op, hot: true, repeat: true}, c06Scenario{op: op, hot: true, others: "H3"})
 		}
 		if os.Geteuid() == 0 && (op.name == "Select" || op.name == "PKSelect" || op.name == "Columns") {
 			// permission bits say nothing about writers (root, a descriptor opened earlier): the lock is needed all the same
@@ -666,6 +701,7 @@ func runC06(r *ev.Run) {
 		if op.name == "SelectDone" || op.name == "Columns" || op.name == "IndexedSelectEq" || op.name == "PKSelect" {
 			// the same handle calls again after a call that was refused (writer in EXCLUSIVE), that overlapped a writer, or that simply returned
 			scen = append(scen, c06Scenario{op: op, others: "WX", repeat: true}, c06Scenario{op: op, others: "W", repeat: true}, c06Scenario{op: op, repeat: true})
+			scen = append(scen, c06Scenario{op: op, others: "WO", repeat: true})
 		}
 		if op.rows >= 2 && (op.name == "Select" || op.name == "SelectDone(w)" || op.name == "IndexedSelect" || op.name == "IndexedSelectEq") {
 			scen = append(scen, c06Scenario{op: op, nestAt: 1}, c06Scenario{op: op, nestAt: 1, others: "W"})
@@ -753,4 +789,34 @@ func c06Driver(r *ev.Run, dir string, img []byte) {
 			r.Violation("C06:driver-lock-leaked", fmt.Sprintf("after rows.Close() at row %d the process still holds %s", k, me.Description), art)
 		}
 	}
+}
+
+// c06HotPair: what a writer that dies in the middle of a transaction leaves behind: the database with
+// spilled pages of the unfinished transaction and the journal (made once, by a real SQLite connection on
+// a scratch copy)
+var c06HotOnce sync.Once
+var c06HotDB, c06HotJ []byte
+
+func c06HotPair(img []byte) ([]byte, []byte) {
+	c06HotOnce.Do(func() {
+		dir := ev.TmpDir("c06hot")
+		defer os.RemoveAll(dir)
+		p := filepath.Join(dir, "hot.sqlite")
+		os.WriteFile(p, img, 0o644)
+		l, err := lite.Open(p, "")
+		if err != nil {
+			return
+		}
+		defer l.Close()
+		if err := l.Exec("PRAGMA cache_size=1; BEGIN; UPDATE t SET v = 'uncommitted'; UPDATE w SET v = 99; INSERT INTO t VALUES (77, 'u', 'p')"); err != nil {
+			return
+		}
+		db, _ := os.ReadFile(p)
+		j, _ := os.ReadFile(p + "-journal")
+		l.Exec("ROLLBACK")
+		if len(j) > 512 {
+			c06HotDB, c06HotJ = db, j
+		}
+	})
+	return c06HotDB, c06HotJ
 }
